@@ -137,7 +137,8 @@ def generate(contract):
         for name, (parent, fields) in excs.items():
             g[name] = ExcClass(name, fields)
         g.update(S.globals)
-        it = Interp(ctx, g, module=fn.module, loops=contract.loops, exc_parents=exc_parents, fnname=fn.ref, module_names=modnames, exact=getattr(contract, 'exact', False))
+        it = Interp(ctx, g, module=fn.module, loops=contract.loops, exc_parents=exc_parents, fnname=fn.ref, module_names=modnames, exact=getattr(contract, 'exact', False),
+                    unroll_while=getattr(contract, 'unroll_while', 0))
         ctx.interp = it
         it.index_loops(fn.node)
         try:
